@@ -43,6 +43,8 @@ pub struct Expect {
     pub accept: BTreeSet<usize>,
     /// how the model found it (for violation classes)
     pub via: Via,
+    /// answering nothing is acceptable too although `accept` is not empty
+    pub none_ok: bool,
 }
 
 #[derive(Clone, Debug, PartialEq)]
@@ -89,22 +91,96 @@ impl<'a> Model<'a> {
         self.defs.iter().enumerate().filter(|(_, d)| d.file == file && d.name == name).map(|(i, _)| i).collect()
     }
 
-    /// Names a file makes available to importers: its own definitions plus what it imports.
+    /// Names a module makes available to importers.  A module is ordinary Python: statements bind names
+    /// in order and a later binding shadows an earlier one (`from b import *` followed by `def x` leaves
+    /// this module's own `x`).  `pytest_plugins` is not a binding; what it registers is added without
+    /// shadowing anything.
     fn exported(&self, file: &str, visiting: &mut BTreeSet<String>) -> BTreeMap<String, BTreeSet<usize>> {
         let mut out: BTreeMap<String, BTreeSet<usize>> = BTreeMap::new();
         if !visiting.insert(file.to_string()) {
             return out;
         }
-        for (i, d) in self.defs.iter().enumerate() {
-            if d.file == file {
-                out.entry(d.name.clone()).or_default().insert(i);
+        let Some(f) = self.spec.file(file) else {
+            visiting.remove(file);
+            return out;
+        };
+        let rendered = &self.rendered[file];
+        let last_plugins = f.items.iter().rposition(|i| matches!(i, Item::Plugins { .. }));
+        let mut plugins: BTreeMap<String, BTreeSet<usize>> = BTreeMap::new();
+        for (idx, it) in f.items.iter().enumerate() {
+            match it {
+                Item::Fixture(_) => {
+                    for (name, line, i2) in &rendered.defs {
+                        if *i2 == idx {
+                            if let Some(di) = self.defs.iter().position(|d| d.file == file && d.line == *line && d.name == *name) {
+                                out.insert(name.clone(), [di].into_iter().collect());
+                            }
+                        }
+                    }
+                }
+                Item::Star { target: Some(t), .. } if self.files.contains(t) => {
+                    for (n, s) in self.exported(t, visiting) {
+                        out.insert(n, s);
+                    }
+                }
+                Item::Import { target: Some(t), names, .. } if self.files.contains(t) => {
+                    let ex = self.exported(t, visiting);
+                    for n in names {
+                        if let Some(s) = ex.get(n) {
+                            out.insert(n.clone(), s.clone());
+                        }
+                    }
+                }
+                Item::Plugins { targets, .. } if Some(idx) == last_plugins => {
+                    for t in targets.iter().flatten() {
+                        if self.files.contains(t) {
+                            for (n, s) in self.exported(t, visiting) {
+                                plugins.entry(n).or_default().extend(s);
+                            }
+                        }
+                    }
+                }
+                _ => {}
             }
         }
-        for (n, s) in self.provided_by_imports(file, visiting) {
+        for (n, s) in plugins {
             out.entry(n).or_default().extend(s);
         }
         visiting.remove(file);
         out
+    }
+
+    /// Union semantics (no shadowing): everything reachable through the imports of `file`, by name.
+    fn reachable_union(&self, file: &str, visiting: &mut BTreeSet<String>, out: &mut BTreeMap<String, BTreeSet<usize>>, top: bool) {
+        if !visiting.insert(file.to_string()) {
+            return;
+        }
+        if !top {
+            for (i, d) in self.defs.iter().enumerate() {
+                if d.file == file {
+                    out.entry(d.name.clone()).or_default().insert(i);
+                }
+            }
+        }
+        if let Some(f) = self.spec.file(file) {
+            for it in &f.items {
+                match it {
+                    Item::Star { target: Some(t), .. } | Item::Import { target: Some(t), .. } => {
+                        if self.files.contains(t) {
+                            self.reachable_union(t, visiting, out, false);
+                        }
+                    }
+                    Item::Plugins { targets, .. } => {
+                        for t in targets.iter().flatten() {
+                            if self.files.contains(t) {
+                                self.reachable_union(t, visiting, out, false);
+                            }
+                        }
+                    }
+                    _ => {}
+                }
+            }
+        }
     }
 
     /// Names brought into `file` by its star imports, explicit imports and pytest_plugins.
@@ -158,18 +234,30 @@ impl<'a> Model<'a> {
         // 1. same file: the last definition
         let same: Vec<usize> = self.defs_in(file, name).into_iter().filter(|i| Some(*i) != exclude).collect();
         if let Some(best) = same.iter().copied().max_by_key(|i| self.defs[*i].line) {
-            return Expect { accept: [best].into_iter().collect(), via: Via::SameFile };
+            return Expect { accept: [best].into_iter().collect(), via: Via::SameFile, none_ok: false };
         }
         // 2. conftest.py files walking up
+        // `optional`: definitions that a module on the import chain star-imports but shadows with the
+        // excluded (requesting) fixture itself.  pytest does not see them at that level; the statement
+        // ("next definition outward in the shadowing order") can be read either way, so they are
+        // accepted in addition to whatever the walk finds further out.
+        let mut optional: BTreeSet<usize> = BTreeSet::new();
         let mut dir = Some(dir_of(file));
         while let Some(d) = dir {
             let c = join_rel(&d, "conftest.py");
             if self.files.contains(&c) && c != file {
                 let own: BTreeSet<usize> = self.defs_in(&c, name).into_iter().filter(|i| Some(*i) != exclude).collect();
                 let imp: BTreeSet<usize> = self.imports_of(&c).get(name).cloned().unwrap_or_default().into_iter().filter(|i| Some(*i) != exclude).collect();
+                if exclude.is_some() && own.is_empty() && imp.is_empty() {
+                    let mut u = BTreeMap::new();
+                    self.reachable_union(&c, &mut BTreeSet::new(), &mut u, true);
+                    if self.imports_of(&c).contains_key(name) {
+                        optional.extend(u.get(name).cloned().unwrap_or_default().into_iter().filter(|i| Some(*i) != exclude));
+                    }
+                }
                 if !own.is_empty() || !imp.is_empty() {
                     let via = if !own.is_empty() { Via::ConftestOwn(c.clone()) } else { Via::ConftestImport(c.clone()) };
-                    let mut accept = BTreeSet::new();
+                    let mut accept = optional.clone();
                     if let Some(last) = own.iter().copied().max_by_key(|i| self.defs[*i].line) {
                         // the statement leaves own-vs-imported open when a conftest does both
                         accept.insert(last);
@@ -178,13 +266,15 @@ impl<'a> Model<'a> {
                         }
                     }
                     accept.extend(imp);
-                    return Expect { accept, via };
+                    return Expect { accept, via, none_ok: false };
                 }
             } else if c == file {
                 // the using file is this conftest itself: its imports count as its own level
                 let imp: BTreeSet<usize> = self.imports_of(&c).get(name).cloned().unwrap_or_default().into_iter().filter(|i| Some(*i) != exclude).collect();
                 if !imp.is_empty() {
-                    return Expect { accept: imp, via: Via::ConftestImport(c.clone()) };
+                    let mut accept = optional.clone();
+                    accept.extend(imp);
+                    return Expect { accept, via: Via::ConftestImport(c.clone()), none_ok: false };
                 }
             }
             dir = parent_dir(&d);
@@ -192,14 +282,22 @@ impl<'a> Model<'a> {
         // 3. workspace plugins
         let plug: BTreeSet<usize> = self.defs.iter().enumerate().filter(|(i, d)| d.name == name && d.origin == Origin::WorkspacePlugin && Some(*i) != exclude).map(|(i, _)| i).collect();
         if !plug.is_empty() {
-            return Expect { accept: plug, via: Via::WorkspacePlugin };
+            let mut accept = optional.clone();
+            accept.extend(plug);
+            return Expect { accept, via: Via::WorkspacePlugin, none_ok: false };
         }
         // 4. third-party
         let tp: BTreeSet<usize> = self.defs.iter().enumerate().filter(|(i, d)| d.name == name && d.origin == Origin::ThirdParty && Some(*i) != exclude).map(|(i, _)| i).collect();
         if !tp.is_empty() {
-            return Expect { accept: tp, via: Via::ThirdParty };
+            let mut accept = optional.clone();
+            accept.extend(tp);
+            return Expect { accept, via: Via::ThirdParty, none_ok: false };
         }
-        Expect { accept: BTreeSet::new(), via: Via::Nothing }
+        if !optional.is_empty() {
+            // nothing further out: the shadowed import or nothing
+            return Expect { accept: optional, via: Via::Nothing, none_ok: true };
+        }
+        Expect { accept: BTreeSet::new(), via: Via::Nothing, none_ok: false }
     }
 
     /// Every name visible from `file`, with the acceptable definitions for each.
